@@ -83,6 +83,8 @@ Init0 ==
     owner |-> <<>>, kind |-> <<>>, dtor |-> <<>>,
     strong |-> <<>>, weak |-> <<>>,
     destructed |-> {}, released |-> {}, everDropped |-> {},
+    dpanic |-> {},            \* values whose (injected) destructor panicked: destructed, their block may stay lost
+    dpanicNow |-> FALSE,      \* ... during the operation that is running
     hs |-> <<>>,              \* DynamicRoot handle number -> [set, obj] (handles live outside the arenas)
     cb |-> "", cbArena |-> 0, cbMutated |-> FALSE,
     call |-> "", callArena |-> 0, callBefore |-> "", callReach |-> {}, callRes |-> {},
@@ -387,7 +389,9 @@ OnDestruct(m, e, i) ==
       \* C20 r1: only operations on the owning arena reclaim
       m5 == Check(m4, m.call # "" \/ m.cb # "",
                   a = (IF m.call # "" THEN m.callArena ELSE m.cbArena), "C20", "r1", i, o)
-  IN [m5 EXCEPT !.destructed = @ \cup {o}]
+  IN IF Get(e, "panics", FALSE)
+     THEN [m5 EXCEPT !.destructed = @ \cup {o}, !.dpanic = @ \cup {o}, !.dpanicNow = TRUE]
+     ELSE [m5 EXCEPT !.destructed = @ \cup {o}]
 
 OnRelease(m, e, i) ==
   LET o == e.o IN
@@ -485,29 +489,33 @@ OnC02Check(m, e, i) ==
       \* r1: exactly the strongly reachable values are undestructed
       m1 == Check(m, TRUE, undestructed = {o \in R : m.dtor[o]}, "C02", "r1", i, Cardinality(undestructed))
       \* r2: the only other allocations still counted are shells that a reachable weak pointer refers to
-      m2 == Check(m1, TRUE, R \subseteq blocks /\ (blocks \ R) \subseteq WeakTargetsOfReachable(m, a, R),
+      \* (and blocks lost to a destructor that panicked: the crate leaks them on purpose)
+      m2 == Check(m1, TRUE, R \subseteq blocks /\ (blocks \ R) \subseteq (WeakTargetsOfReachable(m, a, R) \cup m.dpanic),
                   "C02", "r2", i, Cardinality(blocks))
       m3 == Check(m2, TRUE, e.count = Cardinality(blocks), "C02", "r3", i, e.count)
       m4 == Check(m3, TRUE, e.phase = "Sleeping", "C02", "r4", i, 0)
   IN m4
 
 OnDropBegin(m, e, i) == [m EXCEPT !.ar[ArenaOf(e)].dropping = TRUE, !.call = "drop", !.callArena = ArenaOf(e),
-                                  !.callReach = {}]
+                                  !.callReach = {}, !.dpanicNow = FALSE]
 
 OnDropEnd(m, e, i) ==
   LET a == ArenaOf(e)
       objs == m.ar[a].objs
       \* C04 r4: everything was destructed (once: r1) and every block went back (once: r2)
-      m1 == Check(m, TRUE, \A o \in objs : o \in m.released /\ (m.dtor[o] => o \in m.destructed), "C04", "r4", i,
-                  Cardinality(objs \ m.released))
+      \* (the block of a value whose destructor panicked may be lost: Drop for Context itself skips it)
+      m1 == Check(m, TRUE, \A o \in objs : (o \in m.released \/ o \in m.dpanic) /\ (m.dtor[o] => o \in m.destructed),
+                  "C04", "r4", i, Cardinality(objs \ m.released))
       \* C04 r6 / C10 r1: the retained Metrics handle reads zero
-      m2 == Check(m1, TRUE, e.count = 0, "C04", "r6", i, e.count)
-      m3 == Check(m2, TRUE, ~e.panicked, "C04", "r7", i, 0)
+      \* (zero, plus the blocks lost to panicking destructors, which were never released)
+      m2 == Check(m1, TRUE, e.count = Cardinality((objs \cap m.dpanic) \ m.released), "C04", "r6", i, e.count)
+      \* r7: dropping the arena does not panic (unless a destructor did)
+      m3 == Check(m2, TRUE, ~e.panicked \/ m.dpanicNow, "C04", "r7", i, 0)
   IN [m3 EXCEPT !.ar[a].dropping = FALSE, !.ar[a].live = FALSE, !.call = ""]
 
 OnEnd(m, e, i) ==
   \* every tracked block of the behaviour is back with the allocator
-  Check(m, TRUE, e.outstanding = 0 /\ ~e.overflow, "C04", "r8", i, e.outstanding)
+  Check(m, TRUE, e.outstanding = Cardinality(m.dpanic \ m.released) /\ ~e.overflow, "C04", "r8", i, e.outstanding)
 
 Step(m0, e, i) ==
   LET m == [m0 EXCEPT !.line = i]  ev == e.ev IN
